@@ -375,6 +375,15 @@ def m_iter(interp, args, kwargs):
 
 def m_next(interp, args, kwargs):
     it = args[0]
+    if isinstance(it, Opaque) and it.tag == "iter" and isinstance(it.attrs["src"], SList):
+        # next() on an iterator over a symbolic list: the element at the iterator's (concrete) position, if there is one
+        src, p = it.attrs["src"], it.attrs["pos"]
+        if interp.ctx.branch(src.length > p, "iterator-has-next"):
+            it.attrs["pos"] = p + 1
+            return src.get(z3.IntVal(p))
+        if len(args) > 1:
+            return args[1]
+        interp.raise_("StopIteration")
     if isinstance(it, Opaque) and it.tag == "iter":
         items = interp.pack.for_items(interp, it.attrs["src"], None)
         p = it.attrs["pos"]
